@@ -64,16 +64,22 @@ func (m *Mocker) Mock(w io.Writer, namePairs ...string) error {
 			return err
 		}
 
+		typeParams := m.typeParams(tparams)
+		typeParamNames := make([]string, len(typeParams))
+		for j, tp := range typeParams {
+			typeParamNames[j] = tp.Name()
+		}
+
 		methods := make([]template.MethodData, iface.NumMethods())
 		for j := 0; j < iface.NumMethods(); j++ {
-			methods[j] = m.methodData(iface.Method(j))
+			methods[j] = m.methodData(iface.Method(j), typeParamNames)
 		}
 
 		mocks[i] = template.MockData{
 			InterfaceName: name,
 			MockName:      mockName,
 			Methods:       methods,
-			TypeParams:    m.typeParams(tparams),
+			TypeParams:    typeParams,
 		}
 	}
 
@@ -95,6 +101,9 @@ func (m *Mocker) Mock(w io.Writer, namePairs ...string) error {
 			data.SrcPkgQualifier = imprt.Qualifier() + "."
 		}
 	}
+
+	// All imports are registered now, their qualifiers are final.
+	m.registry.ResolveShadowing()
 
 	data.Imports = m.registry.Imports()
 
@@ -122,7 +131,7 @@ func (m *Mocker) typeParams(tparams *types.TypeParamList) []template.TypeParamDa
 
 	tpd = make([]template.TypeParamData, tparams.Len())
 
-	scope := m.registry.MethodScope()
+	scope := m.registry.TypeParamScope()
 	for i := 0; i < len(tpd); i++ {
 		tp := tparams.At(i)
 		typeParam := types.NewParam(token.Pos(i), tp.Obj().Pkg(), tp.Obj().Name(), tp.Constraint())
@@ -151,10 +160,10 @@ func explicitConstraintType(typeParam *types.Var) (t types.Type) {
 	return nil
 }
 
-func (m *Mocker) methodData(f *types.Func) template.MethodData {
+func (m *Mocker) methodData(f *types.Func, typeParamNames []string) template.MethodData {
 	sig := f.Type().(*types.Signature)
 
-	scope := m.registry.MethodScope()
+	scope := m.registry.MethodScope(typeParamNames...)
 	n := sig.Params().Len()
 	params := make([]template.ParamData, n)
 	for i := 0; i < n; i++ {
